@@ -757,19 +757,24 @@ SPEC = {
     'bin': 'c09',
     'gen_cases': gen_cases,
     'rule': 'reference-encoded streams over all 39 chains of length 1-3 of Flate/LZW/ASCII85 (zlib levels 0/1/6/9, LZW EarlyChange '
-            'absent/0/1, PNG predictors 10-15 with per-row types, Columns/Colors/BitsPerComponent 8|16 geometries, DecodeParms as '
-            'dictionary, as parallel array, absent), every ASCII85 final group length with z / white space / missing EOD, unfiltered '
-            'streams around the compression threshold, 20 kinds of damage, png::decode_row / decode_frame directly (types 0-4, '
-            'bpp 0-12, short previous rows, overflowing geometry), Document::compress/decompress, Paeth sweeps; '
+            'absent/0/1 incl. streams long enough for the code width to change, PNG predictors 10-15 with per-row types, '
+            'Columns/Colors/BitsPerComponent 8|16 geometries, DecodeParms as dictionary, as parallel array, absent), every ASCII85 '
+            'final group length with z / white space incl. NUL / missing EOD / bytes after EOD, unfiltered streams around the '
+            'compression threshold, empty filter lists, 20 kinds of damage, png::decode_row / decode_frame directly (types 0-4, '
+            'bpp 0-12, short previous rows, overflowing geometry), Document::compress/decompress, Paeth sweeps (thorough: all 2^24 triples); '
             'non-trivial = non-empty data; distinct = distinct case text',
     'extra_trusted': [
-        'C09: flate2 (inflate/deflate) and weezl (LZW) are oracles: Section variables in the theorems; in the runner their answers '
-        'come from the case (reference data for legal streams, `c09 --oracle` = the same crates for damaged streams and for deflate output)',
+        'C09: flate2 (inflate/deflate) and weezl (LZW) are oracles: universally quantified functions in the theorems (every law used is a '
+        'hypothesis in the statement); in the runner their answers come from the case (reference data for legal streams, `c09 --oracle` = '
+        'the same crates for damaged streams and for deflate output)',
         'C09: the Python reference encoders in props/c09.py (ASCII85, PNG filters, LZW, zlib) define the expected decoding in the direct evaluation',
-        'C09: allocation of the PNG row buffers is not modelled (the generator keeps rows below 1 MB)',
+        'C09: dictionaries have pairwise distinct keys (guaranteed by the Rust type IndexMap; hypothesis dict_wf where a key is removed)',
     ],
-    'partial_note': 'flate2 and weezl internals are not verified: compress_lossless / chain theorems assume inflate(deflate x) = x and '
-                    'the decoder laws as Section hypotheses; they are differential-tested against the reference encoders on every run',
+    'partial_note': 'flate2 and weezl internals are third-party and not verified: in the decoding theorems "enc is a zlib/LZW stream for '
+                    'payload" is defined by what the third-party decoder returns; compress_lossless assumes inflate(deflate c) = c and '
+                    'deflate c <> [] for the content c of the stream at hand (hypotheses in the statement).  Both crates are '
+                    'differential-tested against Python zlib and a reference LZW encoder/decoder on every run.  No LzwSpec / Inflate '
+                    'model in Coq (DESIGN stretch goal not attempted).',
     'model_timeout': 1200,
 }
 
@@ -779,14 +784,27 @@ def run(ctx):
 
 
 MANIFEST = {
-    'level_text': 'Machine-checked proof (Coq) about a branch-faithful model of lopdf\'s stream filter code: the Paeth predictor equals the '
-                  'PNG definition on all 2^24 triples, decode_row/decode_frame invert the PNG reference encoder for every filter type and '
-                  'bytes-per-pixel, ASCII85 decode inverts the ISO 32000 encoder for every byte string (all partial groups), predictor '
-                  'parameters and filter chains with both DecodeParms forms are plumbed as specified, compress is lossless given '
-                  'inflate(deflate x) = x, never lengthens the stream, and Length equals the content length after every content-changing '
-                  'operation; constants are re-read from the source on every run and the model is tied to the crate by differential runs.',
-    'level_note': 'flate2/weezl are oracles (Section hypotheses, differential-tested); four defects repaired in /repo (Average predictor, '
-                  'DecodeParms array, ASCII85 add overflow, stale DecodeParms after compress).',
-    'technique': 'Coq proof (arithmetic by lia, induction over rows/groups/chains) + differential correspondence with reference encoders',
-    'design_ref': 'DESIGN.md 6 C09',
+    'level_text': 'Machine-checked proof (Coq, 35 theorems closed under the global context) about a branch-faithful model of lopdf\'s stream '
+                  'filter code, against specifications written from ISO 32000-1 and PNG 1.2: the Paeth predictor equals the PNG definition on '
+                  'all 2^24 triples (by arithmetic); decode_row inverts the PNG reference encoder for all 5 filter types, every bytes-per-pixel '
+                  '> 0 and every row, and on any input yields the unique solution of the PNG reconstruction equations; decode_frame inverts the '
+                  'frame encoder for any number of rows and mixture of types; Predictor 10-15 x any Columns/Colors x BitsPerComponent 8|16 is '
+                  'mapped to the geometry of the standard; ASCII85 decoding inverts the ISO encoder for every byte string (all partial groups) '
+                  'and agrees with it on every well-formed text (white space incl. NUL anywhere, bytes after EOD, missing EOD); DecodeParms as '
+                  'one dictionary or as an array parallel to the filters is routed as table 5 says; every chain of ANY length over '
+                  'Flate/LZW(EarlyChange absent/0/1)/ASCII85 with legal parameters decodes to the data the reference encoders started from; '
+                  'compress then decode returns the original bytes, compress never lengthens the content, and after set_content, '
+                  'set_plain_content, compress and decompress the Length entry equals the content length (also per object for '
+                  'Document::compress/decompress).  Constants and code shapes are re-read from the source on every run and the model is tied '
+                  'to the crate by differential runs against reference encoders.',
+    'level_note': 'flate2 (zlib) and weezl (LZW) are third-party oracles: universally quantified functions; "enc is a zlib/LZW stream for '
+                  'payload" is defined by the decoder oracle, and compress_lossless assumes inflate(deflate c) = c, deflate c <> [] for the '
+                  'stream content c (written in the statement); both are differential-tested each run; no Coq model of LZW/inflate.  '
+                  'Domain hypotheses: distinct dictionary keys (IndexMap invariant), pixel size in bits and row size in bytes fit a usize.  '
+                  'Five defects of the pinned tree are repaired in /repo and proved refuted on the pinned model (Average predictor f51f21b, '
+                  'ASCII85 add overflow c049d3a, ASCII85 NUL white space efed7db, DecodeParms array c3c22fe, stale DecodeParms after compress '
+                  'fcb7fe1); the model also follows 686bd3f/22cc8e0 (checked predictor geometry).',
+    'technique': 'Coq proof (lia over byte ranges, induction over groups/rows/chains, IndexMap invariants; vm_compute only for 85- and 256-case '
+                 'character facts and concrete witnesses) + translator-regenerated constants + differential correspondence with reference encoders',
+    'design_ref': 'DESIGN.md 6 C09; notes/C09.md',
 }
